@@ -168,29 +168,28 @@ pub fn compare(src: &str, expected: Option<&[NTok]>, out: &mut CaseOut)
 					&& bytes[p] == b'\r'
 					&& !(p + 1 < bytes.len() && bytes[p + 1] == b'\n')
 			};
-			// string literals with a unicode escape of more than six digits:
-			// accepted by one lexer, E162 for the other; whatever either
-			// reports inside such a literal is set aside
-			let long_escape_literals: Vec<(usize, usize)> = if r.unspecified.contains(&"long-unicode-escape")
-			{
-				rt.iter()
-					.filter(|t| t.kind.starts_with('Q') || t.kind.starts_with('E'))
-					.filter(|t| {
-						let lit = &bytes[t.start.min(bytes.len())..t.end.min(bytes.len())];
-						lit.windows(3).enumerate().any(|(k, w)| {
-							w == b"\\u{" && lit[k + 3..].iter().take_while(|b| (**b as char).is_ascii_hexdigit()).count() > 6
-						})
-					})
-					.map(|t| (t.start, t.end))
-					.collect()
-			}
-			else
-			{
-				Vec::new()
-			};
+			// lexemes the documentation does not settle (a unicode escape of
+			// more than six digits, more than 128 binary digits): whatever
+			// either lexer reports inside such a lexeme is set aside
+			let long_escape_literals: Vec<(usize, usize)> = r
+				.unspecified_starts
+				.iter()
+				.map(|s0| {
+					let end = rt
+						.iter()
+						.filter(|t| t.start == *s0 || (t.start >= *s0 && t.kind.starts_with('E')))
+						.map(|t| t.end)
+						.chain(r.err_extents.iter().filter(|(a, _)| a == s0).map(|(_, b)| *b))
+						.max()
+						.unwrap_or(*s0 + 1);
+					// up to the end of the line for an unterminated literal
+					let eol = bytes[*s0..].iter().position(|b| *b == b'\n').map(|k| *s0 + k).unwrap_or(bytes.len());
+					(*s0, if bytes[*s0] == b'"' { end.max(*s0 + 1).min(eol.max(end)) } else { end })
+				})
+				.collect();
 			let norm = |v: &[NTok]| -> Vec<NTok> {
 				v.iter()
-					.filter(|t| !long_escape_literals.iter().any(|(a, b)| t.start >= *a && t.end <= *b))
+					.filter(|t| !long_escape_literals.iter().any(|(a, b)| t.start < *b && t.end > *a))
 					.filter(|t| !(t.kind == "E110" && t.end == t.start + 1 && lone_cr(t.start)))
 					.map(|t| {
 						let mut t = t.clone();
